@@ -422,7 +422,7 @@ fn main() {
 
     let meta = Meta {
         rule: format!(
-            "driver: conv+maxpool+deconv+feedback block+dense(dropout)+dense network; learn() on 5 samples with batch 2/3/5, 2 epochs, Adam and SGDM, 65 validation samples; batch 17 (25 samples) and batch 32 (40 samples) with at most 1 (thorough 2) non-canonical choices per region; validate() on 65 and 130 samples, and on 321 and 641 samples (6 and 11 chunks) with the choice cap; predict_batch() on 0,1,64,65,129,130 inputs; a 96->70->3 dense network (rows of 96 and 70 weights) through learn() with batch 2 and predict_batch(); a feedback block of two dense layers with input skips and 5 repetitions through learn() with batch 3; a dense network with three additive skip connections sharing their source through learn() with batch 2. Every segment is also run under 96 (thorough 1024) hash salts - assignments of iteration orders to the maps of feedback blocks, through the hook - from freshly built networks (same weights and data) and must reproduce its bits (for the std maps of `Network`, whose hash seeds cannot be steered, these 96 / 1024 fresh instances are a sample). Thread counts {:?}; in every parallel region the choices are: entered from outside the pool or not, every steal pattern of rayon's adaptive splitter (stolen halves are `migrated`), every interleaving of a stolen half's leaves with its sibling's; schedules with <= {} deviating regions per run{}. A state is one complete schedule (executed on the real library code); transitions = parallel regions executed; non-trivial = schedules with at least one non-canonical choice",
+            "driver: conv+maxpool+deconv+feedback block+dense(dropout)+dense network; learn() on 5 samples with batch 2/3/5, 2 epochs, Adam and SGDM, 65 validation samples; batch 17 (25 samples) and batch 32 (40 samples) with at most 1 (thorough 2) non-canonical choices per region; validate() on 65 and 130 samples, and on 321 and 641 samples (6 and 11 chunks) with the choice cap; predict_batch() on 0,1,64,65,129,130 inputs; a 96->70->3 dense network (rows of 96 and 70 weights) through learn() with batch 2 and predict_batch(); a feedback block of two dense layers with input skips and 5 repetitions through learn() with batch 3; a dense network with three additive skip connections sharing their source through learn() with batch 2; a conv(2) -> conv(6) -> dense network through learn() with batch 2. Every segment is also run under 96 (thorough 1024) hash salts - assignments of iteration orders to the maps of feedback blocks, through the hook - from freshly built networks (same weights and data) and must reproduce its bits (for the std maps of `Network`, whose hash seeds cannot be steered, these 96 / 1024 fresh instances are a sample). Thread counts {:?}; in every parallel region the choices are: entered from outside the pool or not, every steal pattern of rayon's adaptive splitter (stolen halves are `migrated`), every interleaving of a stolen half's leaves with its sibling's; schedules with <= {} deviating regions per run{}. A state is one complete schedule (executed on the real library code); transitions = parallel regions executed; non-trivial = schedules with at least one non-canonical choice",
             ts,
             if tier.thorough() { 2 } else { 1 },
             if tier.thorough() { " (pairs of regions: <= 2 non-canonical choices per region)" } else { "" }
